@@ -67,10 +67,10 @@ impl HybridImpressionInfo {
 
     /// ## Errors
     /// If deserialization fails.
-    /// ## Panics
-    /// If not enough delimiters are found in the input bytes.
     pub fn from_bytes(bytes: &[u8]) -> Result<Self, InvalidHybridReportError> {
-        let key_id = bytes[0];
+        let key_id = *bytes
+            .first()
+            .ok_or(InvalidHybridReportError::Length(0, 1))?;
         Ok(Self { key_id })
     }
 }
@@ -186,15 +186,16 @@ impl HybridConversionInfo {
     }
 
     /// ## Errors
-    /// If deserialization fails.
-    /// ## Panics
-    /// If not enough delimiters are found in the input bytes.
+    /// If deserialization fails: the delimiter is missing, the site domain is not valid UTF-8
+    /// or the length of the input does not match the encoded fields.
     pub fn from_bytes(bytes: &[u8]) -> Result<Self, InvalidHybridReportError> {
         let mut pos = 0;
-        let delimiter_pos = bytes[pos..]
-            .iter()
-            .position(|&b| b == 0)
-            .unwrap_or_else(|| panic!("not enough delimiters for HybridConversionInfo"));
+        let delimiter_pos = bytes[pos..].iter().position(|&b| b == 0).ok_or_else(|| {
+            InvalidHybridReportError::DeserializationError(
+                "HybridConversionInfo: conversion_site_domain",
+                "not enough delimiters for HybridConversionInfo".into(),
+            )
+        })?;
         let conversion_site_domain = String::from_utf8(bytes[pos..pos + delimiter_pos].to_vec())
             .map_err(|e| {
                 InvalidHybridReportError::DeserializationError(
@@ -203,7 +204,10 @@ impl HybridConversionInfo {
                 )
             })?;
         pos += delimiter_pos + 1;
-        debug_assert!(pos + 3*8 + 1 == bytes.len(), "{}", format!("bytes for HybridConversionInfo::from_bytes has incorrect length. Expected: {}, Actual: {}", pos + 3*8 + 1, bytes.len()).to_string());
+        let expected_len = pos + 3 * 8 + 1;
+        if bytes.len() != expected_len {
+            return Err(InvalidHybridReportError::Length(bytes.len(), expected_len));
+        }
 
         let key_id = bytes[pos];
         pos += 1;
